@@ -5,18 +5,18 @@
 //
 // What it understands (anything else becomes an access to a variable named
 // "?..." that has no policy, which breaks the finite check in Coq):
-//   * shared state = fields of the receiver struct(s) named in Config.Types,
+//   - shared state = fields of the receiver struct(s) named in Config.Types,
 //     reached through the receiver identifier (c.f, c.in.seq, hc.seq with hc
 //     bound to c.in / c.out by inlining), and local variables captured by a
 //     `go func(){...}()` literal;
-//   * X.Lock(); defer X.Unlock()  (held to function end; the Release is placed
+//   - X.Lock(); defer X.Unlock()  (held to function end; the Release is placed
 //     after everything else of the function, deferred closures in LIFO order);
 //     X.Lock() ... X.Unlock() in the same block;  sync/atomic calls on &field;
-//   * calls to methods defined in the same file on the same receiver types are
+//   - calls to methods defined in the same file on the same receiver types are
 //     inlined (receiver path substituted; a call already on the stack is cut);
 //     methods defined elsewhere are recorded as external calls with the locks
 //     held;
-//   * branches and loops are flattened in source order: since locks are only
+//   - branches and loops are flattened in source order: since locks are only
 //     released at function end, every real path performs a subset of the
 //     flattened accesses, each under the same lock set.
 package locksum
@@ -77,8 +77,10 @@ type ExtCall struct {
 }
 
 type Config struct {
-	Types   map[string]bool // receiver struct types whose fields are shared state
-	Descend map[string]bool // struct types (in this file) whose fields are tracked individually when embedded as a field
+	Types      map[string]bool   // receiver struct types whose fields are shared state
+	Descend    map[string]bool   // struct types (in this file) whose fields are tracked individually when embedded as a field
+	Markers    map[string]string // method name -> pseudo-variable written on entry (event markers)
+	PerSection map[string]bool   // variables whose accesses are kept once per critical section
 }
 
 type File struct {
@@ -189,7 +191,7 @@ type frame struct {
 	depth     int
 	lockDepth map[string]int
 	guards    []string
-	returned  bool // a recognised early-return guard was decided "returns": the rest of the body is not executed
+	returned  bool   // a recognised early-return guard was decided "returns": the rest of the body is not executed
 	finish    string // "done" / "failed": outcome chosen for the handshake call made in this function
 }
 
@@ -218,6 +220,8 @@ type Walker struct {
 	// path enumeration over the recognised phase guards (C34): Decisions[i] is the outcome
 	// of the i-th guard met (true = the guard's branch is taken); when the list is exhausted
 	// NeedMore is set and false is assumed.  Phases switches the guard handling on.
+	section   int             // bumped by every Acquire / Release
+	tracked   int             // number of per-section events requested so far
 	epoch     int             // bumped by every phase step
 	memo      map[string]bool // callee@path|held|epoch already summarised without guards or phase steps
 	Phases    bool
@@ -262,7 +266,9 @@ func (w *Walker) emit(op, name string) {
 		}
 		w.Edges = append(w.Edges, Edge{Func: fn, Via: w.root, Held: hs, Lock: name, Guards: append([]string{}, w.allGuards()...)})
 		w.held = append(w.held, name)
+		w.section++
 	case "Release":
+		w.section++
 		for i := len(w.held) - 1; i >= 0; i-- {
 			if w.held[i] == name {
 				w.held = append(w.held[:i:i], w.held[i+1:]...)
@@ -273,6 +279,11 @@ func (w *Walker) emit(op, name string) {
 		w.epoch++
 	default:
 		k := fmt.Sprintf("%s %s|%s|%d", op, name, strings.Join(w.held, ","), w.epoch)
+		if strings.HasPrefix(name, "@") || w.F.cfg.PerSection[name] {
+			// events that same-critical-section obligations talk about are kept once per section
+			w.tracked++
+			k = fmt.Sprintf("%s|%d", k, w.section)
+		}
 		if w.seen[k] {
 			return
 		}
@@ -575,18 +586,26 @@ func (w *Walker) inline(fd *ast.FuncDecl, recvType string, path []string) {
 		return
 	}
 	mkey := fmt.Sprintf("%s|%s|%d", key, strings.Join(w.held, ","), w.epoch)
+	skey := fmt.Sprintf("%s|%d", mkey, w.section)
 	if w.memo == nil {
 		w.memo = map[string]bool{}
 	}
-	if w.memo[mkey] {
-		return // same callee, same locks held, same phase knowledge: nothing new for the checks
+	if w.memo[mkey] || w.memo[skey] {
+		return // same callee, same locks held, same phase knowledge (and, if it emits per-section events, same section)
 	}
-	used0, epoch0, thr0 := w.used, w.epoch, len(w.Threads)
+	used0, epoch0, thr0, trk0 := w.used, w.epoch, len(w.Threads), w.tracked
 	defer func() {
 		if w.used == used0 && w.epoch == epoch0 && len(w.Threads) == thr0 {
-			w.memo[mkey] = true
+			if w.tracked == trk0 {
+				w.memo[mkey] = true
+			} else {
+				w.memo[skey] = true
+			}
 		}
 	}()
+	if mk := w.F.cfg.Markers[fd.Name.Name]; mk != "" {
+		w.emit("Write", mk) // event marker (e.g. "a record is written"), for same-critical-section obligations
+	}
 	w.stack = append(w.stack, key)
 	fr := &frame{fn: fd.Name.Name, recv: recvName(fd), recvType: recvType, path: path, lockDepth: map[string]int{}}
 	w.frames = append(w.frames, fr)
